@@ -25,6 +25,10 @@ CHECKS = {
    text="Real ClusterRoleBackedValidator/Expand checked against an independent Kubernetes RuleAllows evaluator on the complete universe of concrete requests per (allow-list, request) pair (complete grid of single-token rules + generated pairs); real roles/definition/binding reconcilers over sim: any rejected request => no role write; system role rules bounded by owned/family CRDs + golden baseline + accepted requests; XRD roles name exactly the XRD's resources. Held on the generated inputs; exhaustive only for the single-token rule grid.",
    note="Trusted: the concrete-request evaluator (pinned by c18/oracle_test.go), golden/rbac_baseline.json, the independent image-reference parser; literal '*' resourceNames are not generated (documented quirk).",
    technique="runtime monitoring: differential check against a reference RBAC evaluator with per-pair exhaustive small-model enumeration", ref="3/C18"),
+ "C05": dict(cat="exploration",
+   text="Full product (1..3 resources) of per-resource outcomes x explicit XR readiness x function conditions (incl. forged system types) x fatal variants through the real XR reconciler in Pipeline mode, full product of {ready, unready, invalid apply, render failure} in P&T mode, and claim reconciles (both syncers, fresh and stale XR reads) over scripted XR Ready sequences; stored status.conditions checked against one-directional implications from the statement. Exhaustive for the stated small sizes, sampled for claim sequences.",
+   note="Trusted: " + SIM + "; scripted admission returns 422 for one kind; functions are scripted gRPC servers.",
+   technique="runtime monitoring: enumerated outcome product against implication oracles on stored conditions", ref="3/C05"),
  "C06": dict(cat="fault_enumeration",
    text="Production-wired claim reconciler (captured from the real offered reconciler; CSA and SSA syncers) over sim: every API-call index of every claim reconcile x 6 fault outcomes + retries; claim reads served from a cache lagging 1..12 writes; seeded interleavings at API-call granularity with the XR reconciler, a same-named claim in another namespace and user deletion; statically referenced foreign-bound XRs. Invariants (<=1 XR per claim, XR created only under the name already stored on the claim, no write to a foreign-bound XR) checked by a post-write hook on every store state.",
    note="Trusted: " + SIM + " incl. resourceVersion conflicts and the lagging-reader view; never two concurrent reconciles of one claim; random-suffix name collisions out of scope.",
